@@ -433,7 +433,7 @@ pub fn hot_classes() -> Vec<Vec<u32>> {
         vec![site::ARC_LOAD, site::ARC_STORE_SWAP, site::ARC_SWAP, site::ARC_CAS, site::ARC_CAS_WEAK, site::ARC_CAS_TAG],
         vec![site::AW_LOAD, site::AW_STORE_SWAP, site::AW_SWAP, site::AW_CAS, site::AW_CAS_WEAK, site::AW_CAS_TAG],
         vec![site::RAW_LOAD, site::RAW_STORE, site::RAW_CAS, site::RAW_CAS_WEAK, site::RAW_FETCH_OR],
-        vec![crate::sched::SITE_USER],
+        vec![crate::sched::SITE_USER, crate::sched::SITE_INNER],
     ]
 }
 
@@ -484,9 +484,10 @@ pub fn swarm_cfg(rng: &mut Rng, cfg: &mut RunCfg, nthreads: usize, allow_stall: 
         1 => 2,
         _ => 0,
     };
-    cfg.dtor_api = match rng.below(8) {
+    cfg.dtor_api = match rng.below(9) {
         0 => 1,
         1 => 2,
+        2 => 3,
         _ => 0,
     };
     cfg.align = if rng.chance(0.3) { 32 } else { 8 };
